@@ -628,25 +628,47 @@ func (c *clipperBase) doSplitOp(outrec *OutRec, splitOp *OutPt) {
 		prevOp.next = newOp
 	}
 
-	if !(absArea2 > 1 && (absArea2 > absArea1 || (area2 > 0) == (area1 > 0))) {
+	if !(absArea2 > 1) {
 		verifSplitDiscard(ip, splitOp.pt, splitOp.next.pt, area1, area2)
 		return
 	}
 
-	newOutRec := c.newOutRec()
-	newOutRec.owner = outrec.owner
-	splitOp.outrec = newOutRec
-	splitOp.next.outrec = newOutRec
-
+	// close the split-off loop: ip -> splitOp -> splitOp.next -> ip
 	newOp := &OutPt{
-		pt:     ip,
-		outrec: newOutRec,
-		prev:   splitOp.next,
-		next:   splitOp,
+		pt:   ip,
+		prev: splitOp.next,
+		next: splitOp,
 	}
-	newOutRec.pts = newOp
 	splitOp.prev = newOp
 	splitOp.next.next = newOp
+
+	// A split-off loop that is smaller than the rest of the path and wound
+	// the other way is normally the inverted lobe of a figure-8: it lies
+	// outside the rest of the path and is discarded. But when the loop lies
+	// inside the rest of the path it is a hole. That happens when a vertex
+	// is rounded just across another segment of the same path: the two
+	// segments at that vertex both cross the other segment, the split at one
+	// of these crossings cuts off the (possibly large) empty region that the
+	// path enclosed there, and discarding the loop would fill that region.
+	isHole := false
+	if !(absArea2 > absArea1 || (area2 > 0) == (area1 > 0)) {
+		isHole = path1InsidePath2(newOp, prevOp)
+		if !isHole {
+			verifSplitDiscard(ip, splitOp.pt, splitOp.next.pt, area1, area2)
+			return
+		}
+	}
+
+	newOutRec := c.newOutRec()
+	if isHole {
+		newOutRec.owner = outrec
+	} else {
+		newOutRec.owner = outrec.owner
+	}
+	newOp.outrec = newOutRec
+	splitOp.outrec = newOutRec
+	splitOp.next.outrec = newOutRec
+	newOutRec.pts = newOp
 
 	if !c.usingPolyTree {
 		return
